@@ -112,14 +112,15 @@ theorem nextArg_false {ts : List Token} {q : Nat} {d : Disp} (h1 : d.tokens = ts
 /-- the tokens of an imported file, as `doSingleImport` returns them -/
 def fileToks (name : String) (content : Bytes) : List Token := (lex content).map fun t => { t with file := name }
 
-/-- an `import <file>` line in front of the cursor: what `doImport` does to the state -/
+/-- an `import <file>` line in front of the cursor: what `doImport` does to the state (every source on the import stack
+ended before the directive) -/
 theorem doImport_file (cfg : Cfg) (hf : 0 < cfg.envFuel) (hcc : cfg.cycleCheck = true) (ts : List Token) (q : Nat) (s : PState)
     (imp arg : Token) (after : List Token) (name : String) (content : Bytes)
     (hat : At ts q s) (hseg : ts.drop q = imp :: arg :: after)
     (hline : (imp.file == arg.file && imp.line + numLineBreaks imp.text == arg.line) = true)
     (hnr : noRef arg.text = true) (hne : arg.text.isEmpty = false)
     (hend : ∀ b, after.head? = some b → (arg.file == b.file && arg.line + numLineBreaks arg.text == b.line) = false)
-    (hsn : s.snippets = []) (hfr : s.frames = [])
+    (hsn : s.snippets = []) (hfr : popFrames after.length s.frames = [])
     (hres : resolve cfg.fs arg.text = .files [(name, content)]) (hcont : content.isEmpty = false) :
     doImport cfg s = .ok { s with d := { s.d with tokens := ts.take q ++ fileToks name content ++ after, cursor := (q : Int) },
                                   frames := [[⟨.file name, after.length⟩]] } := by
@@ -157,7 +158,7 @@ theorem doImport_file (cfg : Cfg) (hf : 0 < cfg.envFuel) (hcc : cfg.cycleCheck =
   have hri : resolveImport cfg s (s.d.setCursor ((q + 1 : Nat) : Int)) arg.text after.length =
       .ok (fileToks name content, [[⟨.file name, after.length⟩]]) := by
     unfold resolveImport
-    simp only [hcc, hsn, hfr, if_true, lookupSnippet, List.find?_nil, Option.map_none, hres, popFrames]
+    simp only [hcc, hsn, hfr, if_true, lookupSnippet, List.find?_nil, Option.map_none, hres]
     simp only [scanFiles, importing, List.any_nil, Bool.and_false, Bool.false_eq_true, if_false, hcont, importFiles,
       List.flatMap_cons, List.flatMap_nil, List.append_nil, activesOf, List.map_nil, List.sum_nil, Nat.add_zero, fileToks]
   rw [hri]
@@ -234,7 +235,7 @@ theorem directives_splice (cfg : Cfg) (hf : 0 < cfg.envFuel) (hv : cfg.valid = n
   obtain ⟨S1, hS1⟩ : ∃ S1 : PState, S1 = { S with d := S.d.setCursor ((p + (dirToks ds1).length + 1 : Nat) : Int) } := ⟨_, rfl⟩
   have hS1at : At ts (p + (dirToks ds1).length + 1) S1 := by rw [hS1]; exact ⟨hSat.1, rfl⟩
   have hdo := doImport_file cfg hf hcc ts (p + (dirToks ds1).length + 1) S1 imp arg _ name content hS1at hsegq hline hnr hne hend
-    (by rw [hS1]; exact hSsn) (by rw [hS1]; exact hSfr) hres hcont
+    (by rw [hS1]; exact hSsn) (by rw [hS1]; show popFrames _ S.frames = []; rw [hSfr]; rfl) hres hcont
   have hstep := directives_import_step cfg f1 S _ _ (next_some hSat hi)
     (by rw [← himp]; exact at_val (s := S1) hS1at hi ▸ (by rw [hS1])) (by rw [← hS1]; exact hdo)
   rw [hstep]
